@@ -170,6 +170,18 @@ OVERRIDES = {
          "checked by the bounded stand-in against the selection oracle."),
    note="Trusted: provenance rules and declarations (contracts/_frames.py); write_union not functionally verified.",
    technique="frame obligations by provenance analysis; bounded differential check against an executable selection oracle"),
+ "C10": dict(cat="other", design="0.3, 7/C10",
+   text=("Deductive: every validator of fastavro/_validation_py.py (_validate_null ... _validate_union and the dispatcher _validate) "
+         "is under contract against VALID, the statement's predicate written clause by clause (strict mode, '-type' and (name, value) "
+         "hints included): in the non-raising mode the result IS VALID(datum, schema); in the raising mode (behaviour 'raising') "
+         "ValidationError is raised exactly when VALID is false. Writer.write with validation enabled (behaviour 'validating') raises "
+         "ValidationError exactly for data that is not VALID, with buffer, count and file unchanged. All obligations discharged by z3 "
+         "for all schemas/data/iterations. Not deductive: validate()/validate_many() themselves (they call parse_schema first), "
+         "'accepted => the writer encodes and round-trips' and logical-type values -- bounded stand-in; hence 'other'."),
+   note=("Domain of the contracts: parsed schemas without logical types whose field defaults are valid Python data (DEFAULTS_DATA); "
+         "outside it validate deviates from the statement -- known finding KF12, reported by the bounded part. Trusted: z3, the pyvc "
+         "translator, the data-model assumption that module sentinels (NoValue) are never container elements, write_data[anydatum]."),
+   technique="contract-based deductive verification (AST->VC, z3) of every validator incl. exceptional postconditions; bounded differential check against the same executable predicate"),
  "C14": dict(cat="proof", design="0.3, 7/C14",
    text=("rabin_fingerprint: the table is produced by executing the real construction loops; the main loop's invariant "
          "result == RABIN(data[:i]) against the specification's bit-by-bit polynomial division is discharged over 64-bit vectors for "
